@@ -555,6 +555,15 @@ func (wl *Wallet) WSigned(method string, nonce int64, extra ...interface{}) []in
 	return args
 }
 
+// rp is the actor's signing client on its current connection (which may belong to another actor: one agent
+// process can register several nodes over one connection).
+func (a *Actor) rp() *pool.RemotePool {
+	if a.Conn.A == a {
+		return a.Conn.RP
+	}
+	return pool.Remote(a.Conn.Agent, a.Key)
+}
+
 func (a *Actor) ConnectReq(payout, nodeURI string) pool.ConnectRequest {
 	return pool.ConnectRequest{VipnodeVersion: "sim/1", NodeInfo: ethnode.UserAgent{Version: "Geth/sim", Kind: ethnode.ParseNodeKind(a.Kind), IsFullNode: a.IsHost, Network: 0}, Payout: payout, NodeURI: nodeURI}
 }
@@ -699,6 +708,31 @@ func (w *World) Registry() []string {
 		out = append(out, w.N(id)+"@"+conn)
 	}
 	sort.Strings(out)
+	return out
+}
+
+// RegistryConns maps every host id in the pool's registry to the simulated connection it is registered on (nil: unknown).
+func (w *World) RegistryConns() map[string]*Conn {
+	out := map[string]*Conn{}
+	v := reflect.ValueOf(w.Pool).Elem().FieldByName("remoteHosts")
+	if !v.IsValid() || v.Kind() != reflect.Map {
+		return out
+	}
+	it := v.MapRange()
+	for it.Next() {
+		id := it.Key().String()
+		out[id] = nil
+		if e := it.Value(); e.Kind() == reflect.Interface && !e.IsNil() {
+			ptr := e.Elem().Pointer()
+			w.mu.Lock()
+			for _, c := range w.Conns {
+				if reflect.ValueOf(c.PoolSide).Pointer() == ptr {
+					out[id] = c
+				}
+			}
+			w.mu.Unlock()
+		}
+	}
 	return out
 }
 
